@@ -81,6 +81,18 @@ def generate(tier, seed):
                 for t in terms_for(x[1])[:6]:
                     items.append({'family': 'two-binders', 'formula': f1, 'var': x, 'term': t})
                     items.append({'family': 'nested-binders', 'formula': f2, 'var': x, 'term': t})
+    # several binders of one block need renaming at once: the term mentions two or three block variables
+    blockvars = [('X', 'i'), ('X1', 'i'), ('X2', 'i'), ('X11', 'i'), ('X', 'g'), ('X1', 'g')]
+    multi_terms = [add(ivar('X'), ivar('X1')), sub(ivar('X1'), ivar('X')), add(ivar('X1'), ivar('X11')),
+                   mul(ivar('X'), add(ivar('X1'), ivar('X2'))), add(add(ivar('X'), ivar('X1')), ivar('X11')),
+                   add(ivar('X2'), ivar('X1'))]
+    for q in ('forall', 'exists'):
+        for k in (2, 3):
+            for bs in itertools.permutations(blockvars, k):
+                body = conj(atom('p', vterm(bs[0]), vterm(bs[-1])), cmp(vterm(bs[1]), '<', ivar('Z')))
+                f = (q, tuple(var(*b) for b in bs), body)
+                for t in multi_terms:
+                    items.append({'family': 'multi-rename', 'formula': f, 'var': ('Z', 'i'), 'term': t})
     # fresh-name candidates already taken (free, bound deeper, in the term)
     for x, t in [(('Z', 'g'), gvar('X')), (('Z', 'i'), add(ivar('X'), ivar('X1'))), (('X1', 'i'), add(ivar('X'), num(1))),
                  (('X1', 'g'), gvar('X')), (('Z', 'g'), add(ivar('X'), ivar('X2')))]:
